@@ -129,6 +129,9 @@ func genC12(seed uint64, thorough bool) c12case {
 		cs.readSize = 8192
 	}
 	cs.delayUs = []int{20, 50, 250}[r.Intn(3)]
+	if cs.segClass == 1 || cs.readSize <= 3 {
+		cs.delayUs = 20 // one byte per read: keep the session short
+	}
 	if r.Chance(1, 2) {
 		cs.pauseUs = r.Range(30, 300)
 	}
@@ -176,6 +179,9 @@ func genC12(seed uint64, thorough bool) c12case {
 				e.input = r.Pick([]string{"y", "yes", "n", "", "startup-config", "flash:/cfg.txt", "show clock"})
 				if prevQ == -1 && e.input == "" {
 					e.input = "show clock"
+				}
+				if e.input == "" && cs.exact && !r.Chance(1, 8) {
+					e.input = "y" // exact matching of an empty input stalls (twist exact-empty-input): keep it rare
 				}
 			}
 			e.out = c12out(r, cs.nl, maxLines)
@@ -282,6 +288,14 @@ func genC12(seed uint64, thorough bool) c12case {
 	if r.Chance(1, 3) {
 		cs.depth = longest + 3 + r.Intn(40)
 	}
+	if cs.kind == "inter" && cs.exact && cs.weird == "" {
+		for i, e := range cs.events {
+			if e.input == "" && e.resp >= 0 && !e.hidden && (cs.earlyAt < 0 || i <= cs.earlyAt) {
+				// ReadUntilExplicit of an empty input waits for a chunk the device never sends
+				cs.weird = "exact-empty-input"
+			}
+		}
+	}
 	return cs
 }
 
@@ -299,6 +313,7 @@ type c12op struct {
 }
 
 type c12obs struct {
+	dur      time.Duration
 	line     string // model request for the whole session
 	main     int    // index of the operation under test (inter / send)
 	fatal    string
@@ -417,12 +432,14 @@ func c12levels() map[string]*network.PrivilegeLevel {
 // one (a 1-byte segmentation at a 250 µs read delay needs tens of milliseconds per dialogue)
 func c12timeout(cs c12case) time.Duration {
 	if cs.weird == "unknown-question" {
-		return 150 * time.Millisecond
+		return 150 * time.Millisecond // stalls right after the escalate command: a few bytes in
 	}
-	return 4 * time.Second
+	return 3 * time.Second
 }
 
 func runC12case(cs c12case) (o c12obs) {
+	t0 := time.Now()
+	defer func() { o.dur = time.Since(t0) }()
 	commonOpts := func() []util.Option {
 		return []util.Option{options.WithAuthBypass(), options.WithTimeoutOps(c12timeout(cs)),
 			options.WithReadDelay(time.Duration(cs.delayUs) * time.Microsecond),
@@ -696,26 +713,33 @@ func runC12(c *ctx) {
 		res.Note("replay of a raw model line is evaluated by the model only: %s", c.replay)
 		return
 	}
+	// vlib.NewRng(seed+1) is vlib.NewRng(seed) shifted by one output: take exactly one output of
+	// the run's generator and derive every case from that fork, so that different VERIF_SEEDs give
+	// unrelated case sets
+	base := c.rng.Fork()
 	rxDiff(c, []string{"Channel.promptPattern"}, c.n(150, 2000))
-	c12rxDiff(c, c.n(120, 2500))
-	n := c.n(1500, 60000)
+	c12rxDiff(c, base.Fork(), c.n(120, 2500))
+	n := c.n(2500, 60000)
 	cases := make([]c12case, n)
 	for i := range cases {
-		cases[i] = genC12(c.rng.U64(), c.thorough())
+		cases[i] = genC12(base.U64(), c.thorough())
 	}
-	for lo := 0; lo < len(cases); lo += 4000 {
-		hi := lo + 4000
+	for lo := 0; lo < len(cases); lo += 500 {
+		hi := lo + 500
 		if hi > len(cases) {
 			hi = len(cases)
 		}
 		c12check(c, cases[lo:hi])
+		if len(res.Findings) >= 24 && hi < len(cases) {
+			res.Note("stopped after %d of %d sessions: %d findings recorded", hi, len(cases), len(res.Findings))
+			break
+		}
 	}
 }
 
 // c12rxDiff ties the Lean engine running the generated table terms to Go's regexp on the same
 // table sources.
-func c12rxDiff(c *ctx, per int) {
-	r := c.rng.Fork()
+func c12rxDiff(c *ctx, r *vlib.Rng, per int) {
 	var lines []string
 	var want []string
 	noise := []string{"\n", " ", "x", "#", ">", "router", "(done)", "password:", "Password: ", "[confirm]", "(yes/no)?", "\r", "é", "New secret:", "enable ", "(", ")", "\n"}
@@ -817,6 +841,15 @@ func c12check(c *ctx, cases []c12case) {
 			}
 			fmt.Printf("  emitted %q\n", o.emitted)
 		}
+		if ms := int(o.dur / time.Millisecond); o.err != "timeout" && ms > res.Distribution["max-session-ms"] {
+			res.Distribution["max-session-ms"] = ms
+		}
+		if o.err == "timeout" {
+			res.Count("timeouts: twist=" + cs.weird + " kind=" + cs.kind)
+			if cs.weird == "" {
+				res.Note("timeout in %s setup=%d", caseLine, cs.setup)
+			}
+		}
 		parts := strings.Split(answers[i], " | ")
 		if len(parts) != len(o.ops) {
 			res.Case(key, false)
@@ -898,18 +931,16 @@ func c12check(c *ctx, cases []c12case) {
 				"outcome": cs.outcome, "twist": cs.weird, "target": cs.target, "depth": cs.depth, "seg": cs.segClass, "read_size": cs.readSize,
 				"pause_us": cs.pauseUs, "setup": cs.setup, "err": o.err, "ops": len(o.ops), "dom": allDom})
 		}
-		if !okAll {
-			continue
-		}
-		// secret oracle: never gated by exactness — a secret typed at a command prompt is a
-		// violation whatever the segmentation did
+		// oracles that need no model: never gated by exactness nor by the correspondence — a secret
+		// typed at a command prompt, or a hidden input whose echo is awaited, is a violation
+		// whatever the segmentation did
 		if cs.kind == "esc" {
 			c12secretOracle(res, caseLine, cs, o)
 		}
 		if cs.kind == "inter" {
 			c12hiddenOracle(res, caseLine, cs, o)
 		}
-		if !allDom {
+		if !okAll || !allDom {
 			continue
 		}
 		res.InDomain++
@@ -1030,6 +1061,10 @@ func c12secretOracle(res *vlib.Result, caseLine string, cs c12case, o c12obs) {
 		st := o.wstates[k]
 		if st.Mode != "password" {
 			res.Fail("oracle", caseLine, fmt.Sprintf("the secondary secret was written (write %d) while the device was in state %q, not at its password question (outcome %s, twist %q)", k, st.Mode, cs.outcome, cs.weird), "secret-at-prompt")
+			return
+		}
+		if k+1 >= len(o.writes) || string(o.writes[k+1].Data) != "\n" {
+			res.Fail("oracle", caseLine, fmt.Sprintf("the secret was written (write %d) but its return never followed (error class %s): the echo of a hidden input was awaited", k, o.err), "hidden-awaited")
 			return
 		}
 		// and the password question had been delivered in full (bar at most its trailing space)
